@@ -61,6 +61,10 @@ func jsonValue(r *Rng, depth int) interface{} {
 			return float64(r.Range(-40, 40)) / 8 // short dyadic fraction
 		}
 	case 4, 5:
+		if r.Chance(1, 4) {
+			// a STRING whose text is itself a complete JSON document: it must come out as a JSON string, quotes and all
+			return []string{"12345", "-1.5e3", " 42 ", "true", "false", "null", "[]", "{}", "{\"a\":1}", "\"quoted\"", "[1,2]", "0", "007", "1e400"}[r.Intn(14)]
+		}
 		return jsonString(r)
 	case 6, 7:
 		n := r.Range(0, 4)
